@@ -255,7 +255,7 @@ impl Prop for C03 {
         if c.hash_seed != 0 { out.push(UpdCase { hash_seed: 0, ..c.clone() }); }
         out
     }
-    fn rule(&self) -> String { "A case is one history of 5-40 steps on one database (a second session is interleaved so blank-node allocations are non-contiguous): the six update forms over default and named graphs (IRIs, literals, template blank nodes, GRAPH ?g templates, self-referential templates, templates producing illegal triples and unbound variables), rejected/malformed operations, direct API mutations and SELECTs (stale statistics), index rebuilds. After every step the whole dataset and graph catalog are compared with the reference Update model modulo a bijection on fresh blank nodes, the reported counts with the quads actually changed, and a rejected operation must leave ids and catalog unchanged. Non-trivial = at least 5 steps ending non-empty; distinct = hash of the step list.".into() }
+    fn rule(&self) -> String { "A case is one history of 5-40 steps on one database (a second session is interleaved so blank-node allocations are non-contiguous): the six update forms over default and named graphs (IRIs, literals, template blank nodes, GRAPH ?g templates, self-referential templates, templates producing illegal triples and unbound variables), rejected/malformed operations, direct API mutations and SELECTs (stale statistics), index rebuilds. After every step the whole dataset and graph catalog are compared with the reference Update model modulo a bijection on fresh blank nodes, the reported counts with the quads actually changed, and a rejected operation must leave ids and catalog unchanged. Non-trivial = at least 5 steps ending non-empty; distinct = hash of the step list. A quarter of the histories use relative IRIs (legality of template-bound terms decided on the pre-operation dataset), a quarter abbreviate IRIs with one prefix label that successive requests bind to different namespaces, a fifth put RDF-star quoted triples with template blank nodes into INSERT templates (compared with fresh labels collapsed plus the number of distinct fresh nodes).".into() }
     fn assumptions(&self) -> Vec<String> { vec!["reference model written from SPARQL 1.1 Update: WHERE once on the pre-state (quad-pattern BGP), all deletes then all inserts, blank nodes fresh per solution, illegal-position and unbound solutions skipped".into(), "generated terms are kind-unambiguous (absolute IRIs, literals v<n>)".into(), "the process-global blank-node counter is not replaced: oracles are label-insensitive".into()] }
     fn real_vs_stub(&self) -> serde_json::Value { serde_json::json!({"real": ["SparqlDatabase::execute_update -> parser, execute_modify, instantiate_templates, apply_mutations, optimizer, execution engine, DatasetIndex"], "simulated": ["rayon (sim-rayon)", "hash keys", "client issuing rejected/malformed operations"], "not_run": ["HTTP transport"]}) }
 }
@@ -463,7 +463,7 @@ impl Prop for C17 {
         if c.hash_seed != 0 { out.push(HostileCase { hash_seed: 0, ..c.clone() }); }
         out
     }
-    fn rule(&self) -> String { "A case is one session: a generated update history builds a database state (in a third of the cases its prefix table holds namespaces registered through the Turtle loader or the prefix API, half of those hostile: escape-like sequences next to multi-byte characters, surrogates, empty), then a hostile client sends 8-38 requests (valid SELECTs incl. MIN/MAX/SUM/AVG over NaN/inf lexical forms, every update form and the legacy aliases, any of them optionally behind a RULE / RETRIEVE / REGISTER / ML.PREDICT extension clause, and mutations of those: deletion/duplication/truncation, 2-4-byte characters before/inside/after tokens, unbalanced braces and quotes, NULs, very long tokens, extreme numbers in place of number tokens and LIMITs up to usize::MAX) through execute_sparql_query, execute_query_rayon_parallel2_volcano (SELECT only), execute_sparql_update, SparqlDatabase::execute_update, handle_update and the HTTP GET query adapter. After every request: query paths leave quad ids and catalog unchanged, update syntax is refused there, a failed update leaves the dataset unchanged, no entry point unwinds. Distinct = hash of the request list (every case is counted non-trivial when it has >= 8 requests).".into() }
+    fn rule(&self) -> String { "A case is one session: a generated update history builds a database state (in a third of the cases its prefix table holds namespaces registered through the Turtle loader or the prefix API, half of those hostile: escape-like sequences next to multi-byte characters, surrogates, empty), then a hostile client sends 8-38 requests (valid SELECTs incl. MIN/MAX/SUM/AVG over NaN/inf lexical forms, every update form and the legacy aliases, any of them optionally behind a RULE / RETRIEVE / REGISTER / ML.PREDICT extension clause, and mutations of those: deletion/duplication/truncation, 2-4-byte characters before/inside/after tokens, unbalanced braces and quotes, NULs, very long tokens, extreme numbers in place of number tokens and LIMITs up to usize::MAX) through execute_sparql_query, execute_query_rayon_parallel2_volcano (SELECT only), execute_sparql_update, SparqlDatabase::execute_update, handle_update and the HTTP GET query adapter. After every request: query paths leave quad ids and catalog unchanged, update syntax is refused there, a failed update leaves the dataset unchanged, no entry point unwinds. Distinct = hash of the request list (every case is counted non-trivial when it has >= 8 requests). Sessions run under simulated pools of 1-300 workers, a fifth with 60-150 extra triples; the database prefix table may hold hostile namespaces; the known-malformed corpus goes through every update entry point (must fail); form / URL parameters get hostile percent escapes; extreme numbers replace number tokens.".into() }
     fn assumptions(&self) -> Vec<String> { vec!["RULE / RETRIEVE / REGISTER / ML.PREDICT clauses are in the corpus in front of SELECTs and updates (none of the ten entry points executes them); MODEL / TRAIN declarations are not (they run training code)".into(), "this is seeded mutation of requests inside a stateful session; the simulator's contribution is the state dimension and the per-request whole-state invariant".into()] }
     fn real_vs_stub(&self) -> serde_json::Value { serde_json::json!({"real": ["execute_sparql_query", "execute_query_rayon_parallel2_volcano", "execute_sparql_update", "SparqlDatabase::{execute_update, handle_update, handle_http_request}", "parser", "error_handler"], "simulated": ["the client", "hash keys"], "not_run": ["TCP sockets (run_server)"]}) }
 }
